@@ -205,6 +205,8 @@ func (l *Lab) DKGAlphabet() []Input {
 			mk(dpf.EventDKGMasterKeyConfirmationReceived, pid, v, 4, false, world.MustJSON(requests.DKGProposalMasterKeyConfirmationRequest{ParticipantId: pid, MasterKey: key, PubPolyBz: []byte("poly-A"), CreatedAt: at}))
 		}
 		mk(dpf.EventDKGMasterKeyConfirmationReceived, pid, "keyB", 4, false, world.MustJSON(requests.DKGProposalMasterKeyConfirmationRequest{ParticipantId: pid, MasterKey: []byte("group-key-B"), PubPolyBz: []byte("poly-B"), CreatedAt: world.T0}))
+		// a different key announced together with the polynomial everybody else announces
+		mk(dpf.EventDKGMasterKeyConfirmationReceived, pid, "keyB-polyA", 4, false, world.MustJSON(requests.DKGProposalMasterKeyConfirmationRequest{ParticipantId: pid, MasterKey: []byte("group-key-B"), PubPolyBz: []byte("poly-A"), CreatedAt: world.T0}))
 		for ph, ev := range []fsm.Event{dpf.EventDKGCommitConfirmationError, dpf.EventDKGDealConfirmationError, dpf.EventDKGResponseConfirmationError, dpf.EventDKGMasterKeyConfirmationError} {
 			mk(ev, pid, "valid", ph+1, true, world.MustJSON(requests.DKGProposalConfirmationErrorRequest{ParticipantId: pid, Error: ferr, CreatedAt: world.T0}))
 		}
